@@ -49,7 +49,10 @@ OPS_A = ([("step", e, j, o) for e in ("numpy", "SX", "MX") for j in (0, 1) for o
          + [("tofunP",)]
          # the caller assigns other values to public element attributes (critical densities, maximum densities, capacities)
          # between two steps that re-use the same retained arrays / symbols, engine objects and parameter objects
-         + [("setparams",)])
+         + [("setparams",)]
+         # value set 3: a caller dictionary with an entry for EVERY element that holds only the states (the entries of
+         # state-less elements are empty dictionaries); the NumPy engine creates the rest (constant fill)
+         + [("step", "numpy", 3, 0)])
 OPS_B = [("step", "numpy", j, o) for j in (0, 1) for o in (0, 1)] + [("feedback", o) for o in (0, 1)] + [("inplace0",)]
 
 
@@ -128,6 +131,18 @@ class Session:
             ic = np_inputs(self.built, neg_some(valgen.base_vector(spec, j)) if j == 1 else valgen.base_vector(spec, j))
             self.np_ic.append(ic)
             self.np_snap.append({el: {k: v.copy() for k, v in d.items()} for el, d in ic.items()})
+        # value set 3: states only, an (empty) entry for every element
+        full3 = np_inputs(self.built, valgen.base_vector(spec, 0))
+        state_names = {(k_, v_) for k_, v_, n_ in spec.state_vars()}
+        part = {}
+        for key_, el_ in self.built.obj.items():
+            if key_.startswith("n"):
+                continue
+            part[el_] = {v_: a_ for v_, a_ in full3.get(el_, {}).items() if (key_, v_) in state_names}
+        self.np_ic.append(dict(self.np_ic[1]))  # (index 2 is unused: value set 2 means 'no init_conditions' for CasADi)
+        self.np_snap.append({el: {k: v.copy() for k, v in d.items()} for el, d in self.np_ic[2].items()})
+        self.np_ic.append(part)
+        self.np_snap.append({el: {k: v.copy() for k, v in d.items()} for el, d in part.items()})
         self.cs_ic = {}
         self.engines = {"SX": env.casadi_engine("SX"), "MX": env.casadi_engine("MX")}
         self.last_cs = None
@@ -150,7 +165,7 @@ class Session:
 
     # -- invariants -------------------------------------------------------------------
     def check_invariants(self):
-        for j in (0, 1):
+        for j in (0, 1, 3):
             ic, snap = self.np_ic[j], self.np_snap[j]
             if set(map(id, ic)) != set(map(id, snap)):
                 return "purity/dict", f"the supplied init-conditions dictionary (set {j}) has different element keys"
@@ -222,7 +237,8 @@ class Session:
             opts = ALLPOS if o else {}
             if e == "numpy":
                 self.symbolic_now = False
-                net.step(init_conditions=self.np_ic[j], engine=env.numpy_engine(), **self.P, **opts)
+                net.step(init_conditions=self.np_ic[j], engine=env.numpy_engine(np.float64(30.0)) if j == 3 else env.numpy_engine(),
+                         **self.P, **opts)
                 return "np", {kk: np.array(v, dtype=float, copy=True) for kk, v in read_next(self.built).items()}
             eng = self.engines[e]
             if j == 2:
